@@ -179,6 +179,7 @@ static uint monTimedWaiter(void* p)
   return 0;
 }
 static uint monSetter(void*) { ++setStarted; g_mon->set(); return 0; }
+static uint monPasserBy(void*) { while(!g_waiterLocked) Thread::yield(); { Monitor::Guard g(*g_mon); } return 0; }
 static uint monWaitTwice(void*)
 { // one set() must satisfy exactly one wait: the second (timed) wait of the same thread has to time out
   Monitor::Guard g(*g_mon);
@@ -199,6 +200,10 @@ static void scenMonitor(int variant)
   else if(variant == 1) { a.start(monTimedWaiter, (void*)(long)30); b.start(monTimedWaiter, (void*)(long)30); c.start(monSetter, 0); a.join(); b.join(); c.join(); vf_outcome("a=%d b=%d", results[1], results[2]); }
   else if(variant == 2) { a.start(monTimedWaiter, (void*)(long)40); a.join(); if(results[1]) vf_failf("C11:monitor:wait-without-set", "timed wait succeeded although set() was never called"); }
   else if(variant == 3) { a.start(monWaitTwice, 0); b.start(monSetterAfterLock, 0); a.join(); b.join(); }
+  else if(variant == 5)
+  { // a third thread merely takes and releases the monitor around the set(): that must not cost the waiter its wake-up
+    a.start(monWaiter, 0); b.start(monSetterAfterLock, 0); c.start(monPasserBy, 0); a.join(); b.join(); c.join();
+  }
   else
   { // a set() that nobody waited for leaves the flag up; a waiter that arrives later still blocks (wait does not look at the flag first),
     // so the next set() - issued after the waiter has taken the monitor - has to wake it
@@ -261,7 +266,7 @@ static void scenDeadline(int variant)
 }
 
 struct Scen { const char* name; void (*fn)(int); int variants; };
-static const Scen SCEN[] = {{"mutex", scenMutex, 4}, {"semaphore", scenSemaphore, 4}, {"signal", scenSignal, 5}, {"monitor", scenMonitor, 5}, {"thread", scenThread, 3}, {"deadline", scenDeadline, 54}};
+static const Scen SCEN[] = {{"mutex", scenMutex, 4}, {"semaphore", scenSemaphore, 4}, {"signal", scenSignal, 5}, {"monitor", scenMonitor, 6}, {"thread", scenThread, 3}, {"deadline", scenDeadline, 54}};
 extern "C" int vf_scenario_count(void) { return (int)(sizeof(SCEN) / sizeof(*SCEN)); }
 extern "C" const char* vf_scenario_name(int id) { return SCEN[id].name; }
 extern "C" int vf_scenario_variants(int id) { return SCEN[id].variants; }
